@@ -389,6 +389,50 @@ def _central_differences(fnode, h, x, d):
             problems.append((q.lineno, d_problem))
     return n_q, problems
 
+def wrap_store_rule(model, rep, rule):
+    """Shared by C18 (angle wrapping preserves the angle modulo 2*pi), C07 and C13 (Arm.FK / Arm.IK store and evaluate the joint vector that
+    fsr.angleMod wrapped in place)."""
+    HELP_ = 'basic_robotics.general.basic_helpers'
+    PORT_ = 'basic_robotics.modern_robotics_numba.modern_high_performance'
+    TMM_ = 'basic_robotics.general.faser_transform'
+    sib = [model.func(PORT_, 'AngleMod'), model.func(HELP_, 'angleMod'), model.func(TMM_, 'tm.angleMod')]
+    # ... and what replaces an angle IS its remainder: the element / value is stored back as `a % m` (Python's remainder, np.mod, np.remainder:
+    # result in [0, m) and congruent to a), not a function of it (np.fmod keeps the sign of the dividend, so abs(fmod(a, m)) mirrors angles below
+    # -m; sign(a) * (a % m) is not congruent to a for a < -m)
+    n_st = 0
+    for fi in sib:
+        angle = fi.params[0] if fi.params and fi.params[0] != 'self' else None
+        for st in walk_own(fi.node):
+            if isinstance(st, ast.AugAssign):
+                tgt, val, aug = st.target, st.value, st.op
+            elif isinstance(st, ast.Assign) and len(st.targets) == 1:
+                tgt, val, aug = st.targets[0], st.value, None
+            else:
+                continue
+            b = tgt
+            while isinstance(b, ast.Subscript):
+                b = b.value
+            holds_angle = (isinstance(b, ast.Name) and b.id == angle) or (angle is None and norm_text(b) == 'self.TAA')
+            if not holds_angle:
+                continue
+            tt = norm_text(tgt)
+            mentions = any(norm_text(x) == tt for x in ast.walk(val)) or (isinstance(b, ast.Name) and any(isinstance(x, ast.Name) and x.id == b.id for x in ast.walk(val)))
+            if aug is None and not mentions:
+                continue                          # a conversion / re-binding that does not compute from the angle
+            n_st += 1
+            if aug is not None:
+                ok = isinstance(aug, ast.Mod)
+            else:
+                ok = (isinstance(val, ast.BinOp) and isinstance(val.op, ast.Mod) and norm_text(val.left) == tt) or \
+                     (isinstance(val, ast.Call) and norm_text(val.func) in ('np.mod', 'np.remainder', 'numpy.mod', 'numpy.remainder', 'np.fmod', 'numpy.fmod', 'math.fmod') and len(val.args) == 2
+                      and norm_text(val.args[0]) == tt)
+            rep.ob(rule, fi, src(st)[:80], ok,
+                   'the angle %s is replaced by %s, which is not its remainder modulo 2*pi (`a %% m`, np.mod, np.remainder, fmod): for some angles beyond the threshold '
+                   '(e.g. below -2*pi when the sign of the dividend is kept or restored) the result is not congruent to the input - the rotation changes'
+                   % (tt, norm_text(val)[:70]), line=st.lineno)
+    rep.floor(rule, 'angle stores of the wrap siblings', n_st, 5)
+
+
 def check(model, rep):
     rep.extra['explanation'] = (
         'Exact polynomial identities for the plane / mirror / sphere helpers, constant folding of the angle-wrapping '
@@ -530,12 +574,46 @@ def check(model, rep):
                    'angles beyond %s are reduced modulo %s: the result differs from the input by a non-multiple of 2*pi '
                    '(the rotation changes)' % ([norm_text(il.expand(t_)) for (_c, t_) in thresholds], norm_text(il.expand(rhs))), line=mexpr.lineno)
     rep.floor('R18.2', 'sibling wrap functions with a reduction', n_sites, 3)
+    wrap_store_rule(model, rep, 'R18.2')
     # the transform's wrap touches the rotation rows only (the translation shares the six-vector with it)
     from .tmrows import rotation_only
     n_rot = rotation_only(rep, 'R18.2', model.cls(TMM, 'tm'), model.func(TMM, 'tm.angleMod'), 'tm.angleMod',
                           'translation components of magnitude 2*pi or more are wrapped like angles, the pose moves')
     rep.floor('R18.2', 'in-place stores of tm.angleMod', n_rot, 1)
 
+    # ---------------------------------------------------------------- R18.11
+    # the deprecated spellings (fsr.Mirror, fsr.CloseGap, ...) are public entry points of the same helpers: each hands its own parameters on,
+    # in its own order, to the function it names (keyword calls are already in positional form: the model normalises them)
+    rep.rule('R18.11', 'every deprecated alias of faser_general forwards its parameters, each in its own position, to the helper it announces')
+    n_al = 0
+    for fi_ in model.funcs_in(FSR):
+        if fi_.cls is not None or fi_.outer is not None:
+            continue
+        body_ = [b_ for b_ in fi_.node.body if not (isinstance(b_, ast.Expr) and isinstance(b_.value, ast.Constant))]
+        if not any(isinstance(b_, ast.Expr) and isinstance(b_.value, ast.Call) and norm_text(b_.value.func) == 'print' and 'deprecated' in norm_text(b_.value) for b_ in body_):
+            continue
+        rets_ = [b_ for b_ in body_ if isinstance(b_, ast.Return) and isinstance(b_.value, ast.Call) and isinstance(b_.value.func, ast.Name)]
+        if len(rets_) != 1:
+            continue
+        n_al += 1
+        call_ = rets_[0].value
+        target_ = model.find_func(FSR, call_.func.id)
+        bad_ = None
+        for k_, a_ in enumerate(call_.args):
+            if not (isinstance(a_, ast.Name) and a_.id in fi_.params):
+                continue                                   # a constant / computed argument: not a forwarded parameter
+            if fi_.params.index(a_.id) != k_:
+                bad_ = 'parameter `%s` (position %d of %s) is passed in position %d of %s' % (a_.id, fi_.params.index(a_.id), fi_.name, k_, call_.func.id)
+                break
+        for kw_ in call_.keywords:
+            if isinstance(kw_.value, ast.Name) and kw_.value.id in fi_.params and target_ is not None and kw_.arg in target_.params \
+                    and target_.params.index(kw_.arg) != fi_.params.index(kw_.value.id):
+                bad_ = 'parameter `%s` (position %d of %s) is passed as `%s` (position %d of %s)' % (
+                    kw_.value.id, fi_.params.index(kw_.value.id), fi_.name, kw_.arg, target_.params.index(kw_.arg), call_.func.id)
+        rep.ob('R18.11', fi_, '%s -> %s' % (fi_.name, norm_text(call_)[:70]), bad_ is None,
+               'the deprecated alias %s does not hand its arguments on in order: %s - callers of the old name get the helper applied to exchanged operands' % (fi_.name, bad_),
+               line=rets_[0].lineno)
+    rep.floor('R18.11', 'deprecated aliases of faser_general', n_al, 20)
     # ---------------------------------------------------------------- R18.3
     rep.rule('R18.3', 'arguments of exp / log / hat / vee have the Lie kind the primitive is defined on (known-wrong only)')
     n_typed = 0
